@@ -16,6 +16,9 @@ Driver (relational):
                      relion2stopgap read them back
   import_indep       files / frames produced by the independent RELION writer (origins in px for 3.0, Angstrom >= 3.1,
                      optional data_optics) against the generator's own truth (version, pixel size)
+  history            three-step histories: export / write / read back after in-place edits of the object's table or of a
+                     caller-owned table handed over again; import of a caller-owned RELION table edited in place (new object
+                     and the same holder object again) - every step against the values held at that moment
   import_halfset_single   counts the import_df evaluations whose rlnRandomSubset column holds ONE distinct value (N = 1,
                      one-half files) and repeats their parity verdict; the clause itself is part of import_df / import_indep
 """
@@ -33,7 +36,9 @@ RULE = ("cases = (particle table, RELION version, pixel size, name formats, opti
         "RELION data set (version, pixel-size source, name style, half-sets, loader); stratified over orientation classes "
         "(random, exact/near gimbal lock, +-720 deg, 45-deg lattice), signed positions, N=1, N large, duplicate subtomogram "
         "numbers, absent/single half-set, numeric/padded names, pixel-size extremes, optics-only pixel size, EM / STOPGAP "
-        "file inputs; non-trivial = N >= 2 and a non-zero shift and a non-zero RELION origin and an orientation with "
+        "file inputs, exact duplicate particles, |position| >= 1e5 with a fraction and identifiers at 1e5 / 2**24 / 2**31 / 2**53 "
+        "boundaries, particle counts 2**k-1 / 2**k / 2**k+1 (k = 6..8) and 299 / 300, numbers with unusual text forms or just "
+        "below a 6-decimal rounding tie; non-trivial = N >= 2 and a non-zero shift and a non-zero RELION origin and an orientation with "
         "theta not a multiple of 360; distinct by digest of (class, version, pixel size, formats, N, first rows, loader)")
 ASSUMPTIONS = [
     "particle rotation R = Rz(psi)Rx(theta)Rz(phi) (zxz extrinsic, hand-written matrices); RELION M = Rz(rot)Ry(tilt)Rz(psi); property: M = R^T",
@@ -60,17 +65,19 @@ NUMERIC = set(O.COORD + O.ANGLES + O.ORIGIN_PX + O.ORIGIN_A + ["rlnClassNumber",
 
 
 def plan(tier):
+    # floors = about 85 % of the evaluations the DRIVER's own calls produce (measured with tools/audit_call_structure.sh, i.e.
+    # with the call monitors blind to calls made from inside cryoCAT); core requires half of the stated figure
     if tier == "quick":
         return dict(n_cases=378, shards=4, classes=CLASSES, timeout_s=600,
-                    min_evals={"export_df": 850, "star_export": 580, "import_df": 1450, "angles_to_relion": 500,
-                               "angles_from_relion": 500, "shifts": 500, "roundtrip_mem": 300, "roundtrip_file": 300,
-                               "converters": 580, "import_indep": 600, "import_halfset_single": 40,
-                               "completes:RelionMotl(frame)": 30, "completes:relion2emmotl(frame)": 30})
+                    min_evals={"export_df": 1050, "star_export": 630, "import_df": 1270, "angles_to_relion": 320,
+                               "angles_from_relion": 320, "shifts": 320, "roundtrip_mem": 340, "roundtrip_file": 340,
+                               "converters": 640, "import_indep": 640, "import_halfset_single": 120, "history": 1500,
+                               "completes:RelionMotl(frame)": 50, "completes:relion2emmotl(frame)": 50})
     return dict(n_cases=5040, shards=16, classes=CLASSES, timeout_s=3000,
-                min_evals={"export_df": 10000, "star_export": 7000, "import_df": 19000, "angles_to_relion": 6000,
-                           "angles_from_relion": 6000, "shifts": 6000, "roundtrip_mem": 3900, "roundtrip_file": 3900,
-                           "converters": 7000, "import_indep": 8000, "import_halfset_single": 400,
-                           "completes:RelionMotl(frame)": 400, "completes:relion2emmotl(frame)": 400})
+                min_evals={"export_df": 12500, "star_export": 7500, "import_df": 15000, "angles_to_relion": 3800,
+                           "angles_from_relion": 3800, "shifts": 3800, "roundtrip_mem": 4500, "roundtrip_file": 4500,
+                           "converters": 8000, "import_indep": 8000, "import_halfset_single": 1200, "history": 12000,
+                           "completes:RelionMotl(frame)": 600, "completes:relion2emmotl(frame)": 600})
 
 
 # ---- helpers shared by the call monitors ----------------------------------------------------------------
@@ -388,7 +395,7 @@ def _euler(rng, n, cls):
 def _formats(rng, version, cls, ps):
     """(tomo_format, subtomo_format) following the documented layouts"""
     px = "%.2fA" % ps
-    k = int(rng.integers(0, 3)) if cls == "numeric_names" else 3
+    k = int(rng.integers(0, 3)) if cls == "numeric_names" or (cls != "padded_names" and rng.random() < 0.2) else 3
     padded = cls == "padded_names"
     nx, ny = int(rng.integers(2 if padded else 1, 6)), int(rng.integers(2 if padded else 1, 8))
     X, Y = "$" + "x" * nx, "$" + "y" * ny
@@ -602,7 +609,7 @@ def _gen_relion(rng, cls, version, big, n_override=None, path_only=False):
     # loader
     discoverable = src in ("column", "optics") or version < 3.1
     loaders = ["RelionMotl(path)", "RelionMotl(path,version,pixel_size)", "relion2emmotl", "relion2stopgap", "RelionMotl(frame)", "relion2emmotl(frame)"]
-    loader = loaders[int(rng.choice([0, 1, 2, 3] if path_only else [0, 1, 2, 3, 4, 4, 5, 5]))]
+    loader = loaders[int(rng.choice([0, 1, 2, 3] if path_only else [0, 1, 2, 3, 4, 4, 4, 5, 5, 5]))]
     if not discoverable and loader in ("RelionMotl(path)", "relion2stopgap"):
         loader = ["RelionMotl(path,version,pixel_size)", "relion2emmotl"][int(rng.integers(0, 2))]
     if no_tomo_col and "(frame)" in loader and version < 4.0:
@@ -717,7 +724,7 @@ def gen(ctx, i, cls):
     tf, sf = _formats(rng, version, cls, ps)
     optics = bool(version >= 3.1 and (cls == "optics_only_pixel" or rng.random() < 0.5))
     conv = ["emmotl2relion", "stopgap2relion"][int(rng.integers(0, 2))]
-    inp = "frame"
+    inp = "frame" if rng.random() < 0.6 else {"emmotl2relion": "em_file", "stopgap2relion": "sg_star"}[conv]
     if cls == "em_file_input":
         conv, inp = "emmotl2relion", "em_file"
     elif cls == "sg_star_input":
